@@ -238,6 +238,7 @@ Cancel(t) ==
 
 \* the harness makes one unit of input available (4 bytes on the peer socket / one connection)
 Feed(b) ==
+  /\ b \in Br
   /\ phase = "run" /\ rootSt = "live" /\ StepOK
   /\ Leaf(b) # "pr" /\ ~Finished(br[b]) /\ br[b].fs \notin {"Finished", "Ended"}
   /\ br[b].nfed < MaxFeed /\ ~br[b].eof
@@ -250,6 +251,7 @@ Feed(b) ==
 
 \* the peer of a managed receive stream is closed
 Eof(b) ==
+  /\ b \in Br
   /\ phase = "run" /\ rootSt = "live" /\ StepOK
   /\ Leaf(b) = "mg" /\ ~Finished(br[b]) /\ br[b].fs \in {"Idle", "Submitted"} /\ ~br[b].eof
   /\ LET s == Settle([br EXCEPT ![b].eof = TRUE])
@@ -353,7 +355,8 @@ KillAll(l) == [p \in FPos |-> "dead"]
 \* the task polls the root; the join polls branch b.  Combinators run outermost first: each fail-fast level
 \* polls its listener before anything below it; every level pushes its Ext through an ExtWaker.
 Poll(b) ==
-  /\ phase = "run" /\ rootSt = "live" /\ StepOK /\ b \in Br /\ ~Finished(br[b])
+  /\ b \in Br
+  /\ phase = "run" /\ rootSt = "live" /\ StepOK /\ ~Finished(br[b])
   /\ MaxSteps = 0 => b \in pend
   /\ LET s == Stop(b)
          lstA == [p \in FPos |-> IF p \in ArmedBy(b) /\ lst[p] = "idle" THEN "armed" ELSE lst[p]]
@@ -405,7 +408,8 @@ Poll(b) ==
 
 \* SubmitMulti::try_take on a stream the harness holds as its concrete type
 Take(b) ==
-  /\ phase = "run" /\ rootSt = "live" /\ StepOK /\ b \in Br
+  /\ b \in Br
+  /\ phase = "run" /\ rootSt = "live" /\ StepOK
   /\ Leaf(b) = "am" /\ shape.b[b].c = <<>> /\ br[b].fs \in {"Idle", "Submitted", "Finished"}
   /\ LET ok == br[b].fs \in {"Idle", "Finished"}
      IN /\ br' = IF ok THEN [br EXCEPT ![b].fs = "Taken"] ELSE br
@@ -423,9 +427,13 @@ DropRoot ==
   /\ UNCHANGED <<shape, tokC, tokN, tokReg, postC>>
 
 Next ==
-  \/ \E t \in Tokens : PreCancel(t) \/ Cancel(t)
+  \/ \E t \in Tokens : PreCancel(t)
+  \/ \E t \in Tokens : Cancel(t)
   \/ Build
-  \/ \E b \in Br : Feed(b) \/ Eof(b) \/ Poll(b) \/ Take(b)
+  \/ \E b \in 1..2 : Feed(b)
+  \/ \E b \in 1..2 : Eof(b)
+  \/ \E b \in 1..2 : Poll(b)
+  \/ \E b \in 1..2 : Take(b)
   \/ DropRoot
   \/ KernelStep
 
@@ -461,8 +469,9 @@ BadPersOnlyVisible ==
   \A b \in Br :
      /\ (br[b].res = "einval") => (Driver = "iour" /\ VisPers(b) = BadPers)
      /\ (br[b].res \in {"ok", "canc", "eof"} /\ Driver = "iour") => (VisPers(b) # BadPers)
-\* a cancelled fail-fast level answers Err(Cancelled) and nothing below it is polled
-FailFastPrompt == (last.a = "poll" /\ last.ffexp) => (last.r \in {"ffroot", "ffbr", "ffitem"} /\ ~last.lp)
+\* a cancelled fail-fast level answers Err(Cancelled) and nothing below it is polled (the panic of a fail-fast
+\* stream polled again is the deviation PanicOnlyKnown pins down)
+FailFastPrompt == (last.a = "poll" /\ last.ffexp) => (last.r \in {"ffroot", "ffbr", "ffitem", "panic"} /\ ~last.lp)
 \* the same including tokens cancelled before fail_fast() was called (holds only with FixListen)
 ListenCoversPast == phase # "pre" => \A p \in FPos : tokC[WId(W(p))] => lst[p] \in {"notified", "gone", "dead"}
 \* a stream that has returned None keeps returning None (SubmitMulti and SubmitMultiManaged are FusedStream, and
@@ -536,8 +545,13 @@ ShapesJoinAll == {Two(o, c1, l1, c2, l2) : o \in Chains0 \cup {<<"C1">>, <<"F1">
                                            c1 \in Chains0 \cup Chains1, c2 \in Chains0 \cup Chains1,
                                            l1 \in {"sb", "sx"}, l2 \in {"sx", "pr", "am"}}
 ShapesQuick == ShapesVis2 \cup ShapesSM \cup ShapesJoin
+ShapesThorough == ShapesSMAll \cup ShapesJoinAll \cup ShapesVis3
 \* small sets for the control configurations and the liveness runs
 ShapesCtl == {One(<<"F1">>, "pr"), One(<<"F1">>, "am"), One(<<"C1", "P1">>, "sx"), One(<<>>, "sb"),
               One(<<"F1">>, "sb")}
-ShapesLive == ShapesSM \cup ShapesJoin \cup {One(<<"F1">>, "pr"), One(<<"C2", "F1">>, "pr")}
+ShapesLiveQ == ShapesCtl \cup {One(<<"C1">>, "sb"), One(<<"C2", "F1">>, "pr"), One(<<"C1">>, "mg"),
+                            Two(<<"F1">>, <<>>, "sb", <<"C2">>, "pr")}
+ShapesLive == ShapesSM \cup {One(<<"F1">>, "pr"), One(<<"C2", "F1">>, "pr"),
+                            Two(<<"F1">>, <<>>, "sb", <<"C2">>, "pr"), Two(<<"C1">>, <<"P1">>, "sx", <<"C2">>, "sb")}
+ShapesMCThorough == ShapesQuick \cup ShapesSMAll \cup ShapesVis3
 =============================================================================
